@@ -18,6 +18,7 @@ import (
 	"path/filepath"
 	"sort"
 	"strings"
+	"time"
 
 	git "gopkg.in/src-d/go-git.v4"
 	"gopkg.in/src-d/go-git.v4/plumbing/object"
@@ -49,6 +50,7 @@ type recorder struct {
 	tamper   *tamperSpec
 	opps     int // tamper opportunities seen so far
 	fired    bool
+	hibAt    map[int][]string // plan step -> temp-file names ("" = none) of its Hibernate calls, in call order (wrapper only)
 }
 
 func (r *recorder) nameID(path string) int {
@@ -177,6 +179,9 @@ func (w *wrap) Hibernate() error {
 		ev = append(ev, T("ok"))
 	}
 	w.rec.events = append(w.rec.events, T("hib", ev...))
+	if w.rec.hibAt != nil {
+		w.rec.hibAt[w.rec.step] = append(w.rec.hibAt[w.rec.step], fn)
+	}
 	return err
 }
 
@@ -207,44 +212,30 @@ func (w *wrap) Boot() error {
 type tamperSpec struct {
 	mode string // remove | trunc0 | trunc1 | quarter | half | minus9 | minus4 | minus2 | minus1 | same
 	skip int    // number of opportunities to let pass
+	// victim: 0 = every temp file; 1 / 2 / 3 = ONE file: the first / middle / last one - in directory order (at =
+	// "consume") or in the order of the branches of the boot action (at = "boot")
+	victim int
+	// minFiles: an opportunity counts only when at least that many temp files exist (at = "consume")
+	minFiles int
+	// at: "consume" = in the Consume of the tamper item (while some commit is replayed); "boot" = in OnProgress right
+	// before a boot action that covers at least two branches (needs the recording wrapper to know which file belongs
+	// to which branch of the action)
+	at string
 }
 
-type tamperItem struct {
-	hercules.NoopMerger
-	rec *recorder
+func pickVictim(n, victim int) int {
+	switch victim {
+	case 1:
+		return 0
+	case 2:
+		return n / 2
+	}
+	return n - 1
 }
 
-func (t *tamperItem) Name() string       { return "C09Tamper" }
-func (t *tamperItem) Provides() []string { return []string{} }
-func (t *tamperItem) Requires() []string { return []string{} }
-func (t *tamperItem) ListConfigurationOptions() []hercules.ConfigurationOption {
-	return nil
-}
-func (t *tamperItem) Configure(facts map[string]interface{}) error { return nil }
-func (t *tamperItem) Initialize(r *git.Repository) error           { return nil }
-func (t *tamperItem) Fork(n int) []hercules.PipelineItem {
-	res := make([]hercules.PipelineItem, n)
-	for i := range res {
-		res[i] = &tamperItem{rec: t.rec}
-	}
-	return res
-}
-
-func (t *tamperItem) Consume(deps map[string]interface{}) (map[string]interface{}, error) {
-	r := t.rec
-	if r.tamper == nil || r.fired || r.dir == "" {
-		return map[string]interface{}{}, nil
-	}
-	files, _ := filepath.Glob(filepath.Join(r.dir, "*-hercules.bin"))
-	if len(files) == 0 {
-		return map[string]interface{}{}, nil
-	}
-	r.opps++
-	if r.opps <= r.tamper.skip {
-		return map[string]interface{}{}, nil
-	}
-	r.fired = true
-	sort.Strings(files)
+// damage applies the tamper mode to the given files and records the event (tagged with the plan step before
+// which - or during whose commit replay - it happens).
+func (r *recorder) damage(step int, files []string) {
 	var done []Sx
 	for _, f := range files {
 		st, err := os.Stat(f)
@@ -287,7 +278,52 @@ func (t *tamperItem) Consume(deps map[string]interface{}) (map[string]interface{
 		}
 	}
 	sort.Slice(done, func(i, j int) bool { return done[i].String() < done[j].String() })
-	r.events = append(r.events, T("tamper", append([]Sx{I(r.step)}, done...)...))
+	r.events = append(r.events, T("tamper", append([]Sx{I(step)}, done...)...))
+}
+
+type tamperItem struct {
+	hercules.NoopMerger
+	rec *recorder
+}
+
+func (t *tamperItem) Name() string       { return "C09Tamper" }
+func (t *tamperItem) Provides() []string { return []string{} }
+func (t *tamperItem) Requires() []string { return []string{} }
+func (t *tamperItem) ListConfigurationOptions() []hercules.ConfigurationOption {
+	return nil
+}
+func (t *tamperItem) Configure(facts map[string]interface{}) error { return nil }
+func (t *tamperItem) Initialize(r *git.Repository) error           { return nil }
+func (t *tamperItem) Fork(n int) []hercules.PipelineItem {
+	res := make([]hercules.PipelineItem, n)
+	for i := range res {
+		res[i] = &tamperItem{rec: t.rec}
+	}
+	return res
+}
+
+func (t *tamperItem) Consume(deps map[string]interface{}) (map[string]interface{}, error) {
+	r := t.rec
+	if r.tamper == nil || r.fired || r.dir == "" {
+		return map[string]interface{}{}, nil
+	}
+	if r.tamper.at == "boot" {
+		return map[string]interface{}{}, nil
+	}
+	files, _ := filepath.Glob(filepath.Join(r.dir, "*-hercules.bin"))
+	if len(files) == 0 || len(files) < r.tamper.minFiles {
+		return map[string]interface{}{}, nil
+	}
+	r.opps++
+	if r.opps <= r.tamper.skip {
+		return map[string]interface{}{}, nil
+	}
+	r.fired = true
+	sort.Strings(files)
+	if r.tamper.victim > 0 {
+		files = []string{files[pickVictim(len(files), r.tamper.victim)]}
+	}
+	r.damage(r.step, files)
 	return map[string]interface{}{}, nil
 }
 
@@ -301,6 +337,16 @@ type runCfg struct {
 	fault  string // none | nodir | filedir | rodir | tamper
 	tamper *tamperSpec
 	wrap   bool // use the recording wrapper (otherwise the bare BurndownAnalysis)
+	// options away from the defaults of this harness (kind long): Burndown.TrackFiles off, Burndown.People off, no
+	// Burndown.HibernationDirectory (ioutil.TempFile then uses os.TempDir(), which TMPDIR points to a fresh directory)
+	noFiles, noPeople, defDir bool
+}
+
+func (cfg runCfg) optsSx() []Sx {
+	if !cfg.noFiles && !cfg.noPeople && !cfg.defDir {
+		return nil
+	}
+	return []Sx{T("opts", T("nofiles", B(cfg.noFiles)), T("nopeople", B(cfg.noPeople)), T("defdir", B(cfg.defDir)))}
 }
 
 type outcome struct {
@@ -348,19 +394,81 @@ type runObs struct {
 var baseDir string
 var runCounter int
 
+// scaleOf marks the histories of the scale family (expanded from a scaleP; their trace field is the parameters)
+var scaleOf = map[*synth.Hist]scaleP{}
+
+func histSx(h *synth.Hist) Sx {
+	if sp, ok := scaleOf[h]; ok {
+		return sp.sx()
+	}
+	return h.Sx()
+}
+
+// basePlanOf turns the actions printed by Run's own prepareRunPlan call into a plan (Hibernate / Boot lines dropped).
+func basePlanOf(dump []dumped, commits []*object.Commit) []verifapi.VerifAction {
+	byHash := map[string]*object.Commit{}
+	for _, cm := range commits {
+		byHash[cm.Hash.String()] = cm
+	}
+	var basePlan []verifapi.VerifAction
+	for _, d := range dump {
+		a := verifapi.VerifAction{Items: d.items}
+		switch d.tag {
+		case "C":
+			a.Action, a.Commit = verifapi.ActionCommit, byHash[d.hash]
+		case "F":
+			a.Action = verifapi.ActionFork
+		case "M":
+			a.Action = verifapi.ActionMerge
+		case "E":
+			a.Action = verifapi.ActionEmerge
+		case "D":
+			a.Action = verifapi.ActionDelete
+		default:
+			continue
+		}
+		basePlan = append(basePlan, a)
+	}
+	return basePlan
+}
+
 func doRun(h *synth.Hist, G, S int, cfg runCfg) (ro runObs) {
-	repo, commits := h.Build()
+	if os.Getenv("C09_TIMING") != "" {
+		t0 := time.Now()
+		defer func() {
+			if sp, ok := scaleOf[h]; ok {
+				fmt.Fprintf(os.Stderr, "run %v dist %d thr %d disk %v wrap %v: %v\n", sp, cfg.dist, cfg.thr, cfg.disk, cfg.wrap, time.Since(t0))
+			}
+		}()
+	}
+	journal(h, G, S, cfg)
+	defer journalIdle()
+	var repo *git.Repository
+	var commits []*object.Commit
+	sp, isScale := scaleOf[h]
+	if isScale {
+		repo, commits = scaleBuild(sp, h)
+	} else {
+		repo, commits = h.Build()
+	}
 	ro.commits = commits
 	rec := &recorder{step: -1, names: map[string]int{}}
+	if cfg.wrap {
+		rec.hibAt = map[int][]string{}
+	}
 	ro.rec = rec
 	facts := map[string]interface{}{
 		hercules.ConfigPipelineCommits:            commits,
 		leaves.ConfigBurndownGranularity:          G,
 		leaves.ConfigBurndownSampling:             S,
-		leaves.ConfigBurndownTrackFiles:           true,
-		leaves.ConfigBurndownTrackPeople:          true,
+		leaves.ConfigBurndownTrackFiles:           !cfg.noFiles,
+		leaves.ConfigBurndownTrackPeople:          !cfg.noPeople,
 		"Pipeline.HibernationDistance":            cfg.dist,
 		leaves.ConfigBurndownHibernationThreshold: cfg.thr,
+	}
+	if isScale {
+		// the diffs of the large histories must not depend on the load of the machine
+		facts["FileDiff.Timeout"] = 600000
 	}
 	runCounter++
 	var cleanup string
@@ -388,7 +496,19 @@ func doRun(h *synth.Hist, G, S int, cfg runCfg) (ro runObs) {
 		}
 		rec.dir = dir
 		facts[leaves.ConfigBurndownHibernationToDisk] = true
-		facts[leaves.ConfigBurndownHibernationDirectory] = dir
+		if cfg.defDir {
+			oldTmp, had := os.LookupEnv("TMPDIR")
+			os.Setenv("TMPDIR", dir)
+			defer func() {
+				if had {
+					os.Setenv("TMPDIR", oldTmp)
+				} else {
+					os.Unsetenv("TMPDIR")
+				}
+			}()
+		} else {
+			facts[leaves.ConfigBurndownHibernationDirectory] = dir
+		}
 	}
 	rec.tamper = cfg.tamper
 	defer func() {
@@ -425,11 +545,55 @@ func doRun(h *synth.Hist, G, S int, cfg runCfg) (ro runObs) {
 	if cfg.tamper != nil {
 		p.DeployItem(&tamperItem{rec: rec})
 	}
+	var livePlan []verifapi.VerifAction
 	p.OnProgress = func(step, total int, text string) {
 		if step <= total-2 {
 			rec.step = step - 1
 			rec.texts = append(rec.texts, text)
 			rec.listings = append(rec.listings, rec.list())
+			if cfg.tamper != nil && cfg.tamper.at == "boot" && !rec.fired && text == "boot" && rec.dir != "" {
+				// Run printed its plan before the first step: the action that comes next is known
+				if livePlan == nil {
+					livePlan = basePlanOf(dump, commits)
+					if cfg.dist > 0 {
+						livePlan = verifapi.InsertHibernateBoot(livePlan, cfg.dist)
+					}
+				}
+				i := step - 1
+				if i < len(livePlan) && livePlan[i].Action == verifapi.ActionBoot && len(livePlan[i].Items) >= 2 {
+					// the temp files of the branches of this action, in the order in which Run boots them
+					var files []string
+					for _, b := range livePlan[i].Items {
+						fn := ""
+					search:
+						for k := i - 1; k >= 0; k-- {
+							if livePlan[k].Action == verifapi.ActionHibernate {
+								for j, x := range livePlan[k].Items {
+									if x == b {
+										if j < len(rec.hibAt[k]) {
+											fn = rec.hibAt[k][j]
+										}
+										break search
+									}
+								}
+							}
+						}
+						if fn != "" {
+							files = append(files, fn)
+						}
+					}
+					if len(files) >= 2 {
+						rec.opps++
+						if rec.opps > cfg.tamper.skip {
+							rec.fired = true
+							if cfg.tamper.victim > 0 {
+								files = []string{files[pickVictim(len(files), cfg.tamper.victim)]}
+							}
+							rec.damage(i, files)
+						}
+					}
+				}
+			}
 		}
 	}
 	msg, panicked := Catch(func() {
@@ -455,29 +619,7 @@ func doRun(h *synth.Hist, G, S int, cfg runCfg) (ro runObs) {
 	// the executed plan: the dump gives every action except the 2nd.. items of hibernate / boot actions;
 	// those are recomputed by the real insertHibernateBoot (deterministic) from the dumped base plan and
 	// the result must agree with the dump and with the actions announced through OnProgress
-	byHash := map[string]*object.Commit{}
-	for _, cm := range commits {
-		byHash[cm.Hash.String()] = cm
-	}
-	var basePlan []verifapi.VerifAction
-	for _, d := range dump {
-		a := verifapi.VerifAction{Items: d.items}
-		switch d.tag {
-		case "C":
-			a.Action, a.Commit = verifapi.ActionCommit, byHash[d.hash]
-		case "F":
-			a.Action = verifapi.ActionFork
-		case "M":
-			a.Action = verifapi.ActionMerge
-		case "E":
-			a.Action = verifapi.ActionEmerge
-		case "D":
-			a.Action = verifapi.ActionDelete
-		default:
-			continue
-		}
-		basePlan = append(basePlan, a)
-	}
+	basePlan := basePlanOf(dump, commits)
 	ro.plan = basePlan
 	if cfg.dist > 0 {
 		ro.plan = verifapi.InsertHibernateBoot(basePlan, cfg.dist)
@@ -594,24 +736,42 @@ type caseIn struct {
 
 func faultSx(cfg runCfg) Sx {
 	if cfg.fault == "tamper" {
-		return T("fault", A("tamper"), A(cfg.tamper.mode), I(cfg.tamper.skip))
+		if cfg.tamper.victim == 0 && cfg.tamper.minFiles == 0 && cfg.tamper.at == "" {
+			return T("fault", A("tamper"), A(cfg.tamper.mode), I(cfg.tamper.skip))
+		}
+		at := cfg.tamper.at
+		if at == "" {
+			at = "consume"
+		}
+		return T("fault", A("tamper"), A(cfg.tamper.mode), I(cfg.tamper.skip), T("victim", I(cfg.tamper.victim)),
+			T("minfiles", I(cfg.tamper.minFiles)), T("at", A(at)))
 	}
 	return T("fault", A(cfg.fault))
 }
 
 var baseCache = map[string]runObs{}
 
-func emitCase(c *Config, in caseIn) {
-	key := in.h.Sx().String() + fmt.Sprint(in.G, in.S)
+func emitCase(c *Config, in caseIn) { emitCaseWith(c, in, nil) }
+
+// emitCaseWith: pre, when given, is the observation of a run of exactly in.cfg that has been made already (the
+// probing run of a large history).
+func emitCaseWith(c *Config, in caseIn, pre *runObs) {
+	hsx := histSx(in.h)
+	key := hsx.String() + fmt.Sprint(in.G, in.S, in.cfg.noFiles, in.cfg.noPeople)
 	base, ok := baseCache[key]
 	if !ok {
-		base = doRun(in.h, in.G, in.S, runCfg{wrap: false})
+		base = doRun(in.h, in.G, in.S, runCfg{wrap: false, noFiles: in.cfg.noFiles, noPeople: in.cfg.noPeople})
 		if len(baseCache) > 4 {
 			baseCache = map[string]runObs{}
 		}
 		baseCache[key] = base
 	}
-	ro := doRun(in.h, in.G, in.S, in.cfg)
+	var ro runObs
+	if pre != nil {
+		ro = *pre
+	} else {
+		ro = doRun(in.h, in.G, in.S, in.cfg)
+	}
 	rec := ro.rec
 	listings := make([]Sx, len(rec.listings))
 	for i, l := range rec.listings {
@@ -623,10 +783,8 @@ func emitCase(c *Config, in caseIn) {
 			nt = 1
 		}
 	}
-	c.Emit(T("kind", A(in.kind)), T("nt", I(nt)),
-		in.h.Sx(), T("G", I(in.G)), T("S", I(in.S)),
-		T("dist", I(in.cfg.dist)), T("thr", I(in.cfg.thr)), T("disk", B(in.cfg.disk)), T("wrap", B(in.cfg.wrap)),
-		faultSx(in.cfg),
+	fields := inputFields(in.kind, nt, in.h, in.G, in.S, in.cfg)
+	c.Emit(append(fields,
 		T("obs",
 			T("base", base.out.sx()),
 			T("res", ro.out.sx()),
@@ -637,7 +795,7 @@ func emitCase(c *Config, in caseIn) {
 			T("events", rec.events...),
 			T("listings", listings...),
 			T("final", rec.listSx(ro.final)),
-		))
+		))...)
 }
 
 func parseCase(s Sx) caseIn {
@@ -650,17 +808,39 @@ func parseCase(s Sx) caseIn {
 		return f
 	}
 	in.kind = get("kind").Args()[0].Atom
-	in.h = synth.HistFromSx(get("hist"))
+	if sp, ok := scaleFromSx(get("hist")); ok {
+		in.h = sp.hist()
+		scaleOf[in.h] = sp
+	} else {
+		in.h = synth.HistFromSx(get("hist"))
+	}
 	in.G = get("G").Args()[0].Int()
 	in.S = get("S").Args()[0].Int()
 	in.cfg.dist = get("dist").Args()[0].Int()
 	in.cfg.thr = get("thr").Args()[0].Int()
 	in.cfg.disk = get("disk").Args()[0].Int() != 0
 	in.cfg.wrap = get("wrap").Args()[0].Int() != 0
+	if o, ok := s.Field("opts"); ok {
+		b := func(t string) bool {
+			x, ok := o.Field(t)
+			return ok && x.Args()[0].Int() != 0
+		}
+		in.cfg.noFiles, in.cfg.noPeople, in.cfg.defDir = b("nofiles"), b("nopeople"), b("defdir")
+	}
 	f := get("fault").Args()
 	in.cfg.fault = f[0].Atom
 	if in.cfg.fault == "tamper" {
 		in.cfg.tamper = &tamperSpec{mode: f[1].Atom, skip: f[2].Int()}
+		for _, x := range f[3:] {
+			switch x.Tag() {
+			case "victim":
+				in.cfg.tamper.victim = x.Args()[0].Int()
+			case "minfiles":
+				in.cfg.tamper.minFiles = x.Args()[0].Int()
+			case "at":
+				in.cfg.tamper.at = x.Args()[0].Atom
+			}
+		}
 	}
 	return in
 }
@@ -694,15 +874,19 @@ func genHist(c *Config, maxCommits int) (*synth.Hist, int, int) {
 
 func main() {
 	log.SetOutput(ioutil.Discard)
+	supervise() // returns in the child only
 	c := Setup()
 	defer c.Close()
 	var err error
-	baseDir, err = ioutil.TempDir("", "c09-")
-	if err != nil {
-		fmt.Fprintln(os.Stderr, err)
-		os.Exit(2)
+	baseDir = os.Getenv("C09_BASEDIR")
+	if baseDir == "" {
+		baseDir, err = ioutil.TempDir("", "c09-")
+		if err != nil {
+			fmt.Fprintln(os.Stderr, err)
+			os.Exit(2)
+		}
+		defer os.RemoveAll(baseDir)
 	}
-	defer os.RemoveAll(baseDir)
 
 	if c.Replay != "" {
 		for _, s := range c.ReplayCases() {
@@ -789,4 +973,278 @@ func main() {
 				tamper: &tamperSpec{mode: mode, skip: c.Rng.Intn(3)}, wrap: c.Rng.Intn(3) != 0}})
 		}
 	}
+	victimCases(c)
+	longCases(c)
+	scaleCases(c)
+}
+
+// longCases: histories of 30..135 commits (GenHist rules on a longer commit graph), so that the plan has about 100, more
+// than 100 and more than 200 steps (Run
+// frees memory every 100 steps when hibernation is on), many Hibernate / Boot cycles per branch; the options that the
+// other kinds keep fixed vary here: file tracking off, people tracking off, default hibernation directory.
+func longShape(c *Config, n int) [][]int {
+	parents := [][]int{{}}
+	for x := 1; x < n; x++ {
+		k := 1
+		if r := c.Rng.Intn(20); r < 5 && x >= 2 {
+			k = 2
+		} else if r == 5 && x >= 3 {
+			k = 3
+		}
+		w := x
+		if w > 5 {
+			w = 5
+		}
+		seen := map[int]bool{}
+		var ps []int
+		for len(ps) < k {
+			p := x - 1 - c.Rng.Intn(w)
+			if !seen[p] {
+				seen[p] = true
+				ps = append(ps, p)
+			}
+		}
+		parents = append(parents, ps)
+	}
+	for {
+		isP := map[int]bool{}
+		for _, ps := range parents {
+			for _, p := range ps {
+				isP[p] = true
+			}
+		}
+		var heads []int
+		for x := range parents {
+			if !isP[x] {
+				heads = append(heads, x)
+			}
+		}
+		if len(heads) <= 1 {
+			return parents
+		}
+		k := 2
+		if len(heads) > 2 && c.Rng.Intn(3) == 0 {
+			k = 3
+		}
+		c.Rng.Shuffle(len(heads), func(i, j int) { heads[i], heads[j] = heads[j], heads[i] })
+		parents = append(parents, append([]int{}, heads[:k]...))
+	}
+}
+
+func longCases(c *Config) {
+	nl := c.Count(3, 40)
+	for i := 0; i < nl; i++ {
+		h := synth.GenHistShape(c.Rng, longShape(c, []int{30, 55, 110}[i%3]+c.Rng.Intn(25)), synth.GenOpts{MergeAddsPr: 3})
+		G := 1 + c.Rng.Intn(3)
+		S := 1 + c.Rng.Intn(G)
+		opt := runCfg{noFiles: c.Rng.Intn(3) == 0, noPeople: c.Rng.Intn(3) == 0}
+		for _, dist := range []int{1, 2 + c.Rng.Intn(2), 4 + c.Rng.Intn(5)} {
+			for _, disk := range []bool{false, true} {
+				cfg := opt
+				cfg.dist, cfg.thr, cfg.disk, cfg.fault, cfg.wrap = dist, c.Rng.Intn(3), disk, "none", c.Rng.Intn(4) != 0
+				cfg.defDir = disk && c.Rng.Intn(2) == 0
+				emitCase(c, caseIn{"long", h, G, S, cfg})
+			}
+		}
+		for _, mode := range []string{"remove", "minus1"} {
+			cfg := opt
+			cfg.dist, cfg.thr, cfg.disk, cfg.fault, cfg.wrap = 1+c.Rng.Intn(3), 0, true, "tamper", c.Rng.Intn(3) != 0
+			cfg.defDir = c.Rng.Intn(2) == 0
+			cfg.tamper = &tamperSpec{mode: mode, skip: c.Rng.Intn(12), victim: 1 + c.Rng.Intn(3), minFiles: 1, at: "consume"}
+			emitCase(c, caseIn{"longvictim", h, G, S, cfg})
+		}
+	}
+}
+
+// victimCases: ONE damaged temp file per run.  The kinds tamper / octotamper damage every temp file at once, so the
+// branch that is booted last always fails; a run loop that forgets the failure of an earlier branch of the same
+// boot action (or of an earlier boot action) is only seen when exactly one file is damaged.
+//   - bootvictim: octopus histories (k = 4..6 parents, distance <= k-3 so that one boot action covers >= 2 sleeping
+//     branches); right before such a boot action (OnProgress) the file of its first / middle / last branch - in the
+//     order in which Run boots them - is removed or truncated to 0, to size-1, to half.  Recording wrapper on.
+//   - octovictim: the same histories; the tamper item damages the first / middle / last file in directory order
+//     when at least two temp files exist; wrapper or bare item.
+//   - victim: GenHist histories (single-branch boot actions, but several branches may sleep at the same time).
+func victimCases(c *Config) {
+	modes := []string{"remove", "trunc0", "minus1", "half"}
+	no := c.Count(8, 150)
+	for i := 0; i < no; i++ {
+		k := 4 + c.Rng.Intn(3)
+		oo := synth.OctoOpts{Roots: 1 + c.Rng.Intn(2), Merges: 1 + c.Rng.Intn(2), MinPar: k, MaxPar: k,
+			MaxArm: 1 + c.Rng.Intn(3), MaxTail: 1 + c.Rng.Intn(2)}
+		h := synth.GenOctopusHib(c.Rng, synth.GenOpts{MergeAddsPr: 3}, oo)
+		G := 1 + c.Rng.Intn(3)
+		S := 1 + c.Rng.Intn(G)
+		d0 := k - 3
+		for _, mode := range modes {
+			for victim := 1; victim <= 3; victim++ {
+				dist := 1 + c.Rng.Intn(d0)
+				emitCase(c, caseIn{"bootvictim", h, G, S, runCfg{dist: dist, thr: c.Rng.Intn(2), disk: true, fault: "tamper",
+					tamper: &tamperSpec{mode: mode, skip: c.Rng.Intn(4) / 3, victim: victim, at: "boot"}, wrap: true}})
+				dist = 1 + c.Rng.Intn(d0)
+				emitCase(c, caseIn{"octovictim", h, G, S, runCfg{dist: dist, thr: c.Rng.Intn(2), disk: true, fault: "tamper",
+					tamper: &tamperSpec{mode: mode, skip: c.Rng.Intn(3), victim: victim, minFiles: 2, at: "consume"}, wrap: c.Rng.Intn(3) != 0}})
+			}
+		}
+	}
+	nh := c.Count(8, 150)
+	for i := 0; i < nh; i++ {
+		h, G, S := genHist(c, 8+c.Rng.Intn(7))
+		for _, mode := range modes {
+			for k := 0; k < 2; k++ {
+				emitCase(c, caseIn{"victim", h, G, S, runCfg{dist: 1 + c.Rng.Intn(3), thr: c.Rng.Intn(2), disk: true, fault: "tamper",
+					tamper: &tamperSpec{mode: mode, skip: c.Rng.Intn(3), victim: 1 + c.Rng.Intn(3), minFiles: 1 + k, at: "consume"},
+					wrap: c.Rng.Intn(3) != 0}})
+			}
+		}
+	}
+}
+
+// probe runs the history once (distance 1, threshold 0, on disk, recording wrapper) and returns the largest arena
+// length met at a Hibernate call and the largest temp file written.
+var probeCfg = runCfg{dist: 1, thr: 0, disk: true, fault: "none", wrap: true}
+
+func probe(h *synth.Hist) (ro runObs, arena, flen int) {
+	ro = doRun(h, 1, 1, probeCfg)
+	for _, e := range ro.rec.events {
+		if e.Tag() != "hib" {
+			continue
+		}
+		if a := e.Args()[2].Int(); a > arena {
+			arena = a
+		}
+		if f := e.Args()[4]; f.Tag() == "file" {
+			if l := f.Args()[1].Int(); l > flen {
+				flen = l
+			}
+		}
+	}
+	return
+}
+
+func mkScale(sp scaleP) *synth.Hist {
+	h := sp.hist()
+	scaleOf[h] = sp
+	return h
+}
+
+// scaleCases: the scale family (see scale.go).  Large histories are judged by the property oracles (result equal to
+// the run without hibernation, no file left) and - when the temp files stay below 2 MB - by the complete
+// correspondence as well.  level 0: distance 1 on disk; level 1: + distance 2 on disk (bare item) and distance 2 with
+// the threshold equal to the arena length met; level 2: + distance 1 in memory and threshold = arena length + 1.
+func scaleCases(c *Config) {
+	if c.Tier == "search" {
+		// the family draws nothing from the PRNG: the search after a correspondence break would only repeat it
+		return
+	}
+	emitAll := func(h *synth.Hist, pre runObs, arena, flen int, level int) {
+		emitCaseWith(c, caseIn{"scale", h, 1, 1, probeCfg}, &pre)
+		wrapIt := flen < 2000000
+		var cfgs []runCfg
+		if level >= 1 {
+			cfgs = append(cfgs,
+				runCfg{dist: 2, thr: 0, disk: true, fault: "none", wrap: false},
+				runCfg{dist: 2, thr: arena, disk: true, fault: "none", wrap: wrapIt})
+		}
+		if level >= 2 {
+			cfgs = append(cfgs,
+				runCfg{dist: 1, thr: 0, disk: false, fault: "none", wrap: wrapIt},
+				runCfg{dist: 1, thr: arena + 1, disk: true, fault: "none", wrap: wrapIt})
+		}
+		for _, cfg := range cfgs {
+			emitCase(c, caseIn{"scale", h, 1, 1, cfg})
+		}
+	}
+	// arena lengths c-1, c, c+1 around a constant: the tuning file adds exactly one node per line
+	arenaStraddle := func(sp scaleP, target, level int) {
+		if sp.T < 2 {
+			sp.T = 2
+		}
+		h := mkScale(sp)
+		ro, a, fl := probe(h)
+		if a != target-1 {
+			if sp.T+target-1-a < 2 {
+				return
+			}
+			sp.T += target - 1 - a
+			h = mkScale(sp)
+			ro, a, fl = probe(h)
+		}
+		for i := 0; i < 3; i++ {
+			lv := 0
+			if i == 1 {
+				lv = level
+			}
+			emitAll(h, ro, a, fl, lv)
+			if i < 2 {
+				sp.T++
+				h = mkScale(sp)
+				ro, a, fl = probe(h)
+			}
+		}
+	}
+	// temp-file lengths closely below and above a constant (secant steps on the tuning file, starting from the
+	// given lengths of the tuning file)
+	fileStraddle := func(sp scaleP, target int, tBelow, tAbove int, level int) {
+		for k, t0 := range []int{tBelow, tAbove} {
+			below := k == 0
+			goal := target + target/300
+			if below {
+				goal = target - target/300
+			}
+			sp.T = t0
+			var h *synth.Hist
+			var ro runObs
+			var a, fl int
+			pt, pfl := -1, 0
+			for it := 0; it < 4; it++ {
+				h = mkScale(sp)
+				ro, a, fl = probe(h)
+				if a == 0 || fl == 0 {
+					return
+				}
+				if (fl < target) == below && fl-goal < target/150 && goal-fl < target/150 {
+					break
+				}
+				num, den := fl, a // bytes per node: overall, or measured on the tuning file
+				if pt >= 0 && pt != sp.T && (fl-pfl)*(sp.T-pt) > 0 {
+					num, den = fl-pfl, sp.T-pt
+				}
+				pt, pfl = sp.T, fl
+				sp.T += (goal - fl) * den / num
+				if sp.T < 2 {
+					sp.T = 2
+				}
+			}
+			lv := 0
+			if !below {
+				lv = level
+			}
+			emitAll(h, ro, a, fl, lv)
+		}
+	}
+	plain := func(sp scaleP, level int) {
+		h := mkScale(sp)
+		ro, a, fl := probe(h)
+		emitAll(h, ro, a, fl, level)
+	}
+	// quick tier: about 10^3, 10^4 and 4*10^4 intervals; arena around 128 and 16512 (2- and 3-byte lengths in the
+	// file), temp file around 256 KiB
+	arenaStraddle(scaleP{F: 1, L: 90, P: 2, T: 27, K: 2, A: 3}, 128, 2)
+	plain(scaleP{F: 5, L: 199, P: 2, V: 1, K: 2, A: 3, G: 5}, 2)
+	plain(scaleP{F: 50, L: 201, P: 2, V: 2, K: 4, A: 2, G: 7}, 1)
+	arenaStraddle(scaleP{F: 80, L: 200, P: 2, T: 343, K: 2, A: 3}, 16512, 0)
+	fileStraddle(scaleP{F: 140, L: 257, P: 2, K: 2, A: 3}, 1<<18, 1800, 1960, 1)
+	if c.Tier != "thorough" {
+		return
+	}
+	arenaStraddle(scaleP{F: 80, L: 200, P: 2, V: 1, T: 343, K: 2, A: 3}, 16512, 2)
+	fileStraddle(scaleP{F: 40, L: 200, P: 2, V: 1, K: 2, A: 3}, 1<<16, 1500, 1600, 2)
+	fileStraddle(scaleP{F: 140, L: 257, P: 2, V: 2, K: 2, A: 3}, 1<<18, 1800, 1960, 2)
+	arenaStraddle(scaleP{F: 320, L: 200, P: 2, T: 1000, K: 2, A: 2}, 1<<16, 2)
+	plain(scaleP{F: 400, L: 200, P: 2, K: 2, A: 3, G: 9}, 2)
+	plain(scaleP{F: 300, L: 511, P: 3, V: 1, K: 5, A: 2, G: 4}, 2)
+	fileStraddle(scaleP{F: 700, L: 200, P: 2, V: 2, K: 2, A: 3}, 1<<20, 12000, 13000, 1)
+	plain(scaleP{F: 330, L: 1000, P: 2, K: 4, A: 2, G: 17}, 1)
+	plain(scaleP{F: 1000, L: 1000, P: 2, V: 1, K: 2, A: 3}, 1)
 }
